@@ -21,6 +21,12 @@ pub mod verif_std {
     }
     pub struct DhtRecord {}
     pub struct DhtNetworkManager {}
+    pub struct TransportHandle {}
+    pub struct RequestResponseEnvelope {
+        pub message_id: String,
+        pub is_response: bool,
+        pub payload: Vec<u8>,
+    }
 
     /// Largest input the decoder may be entered with, per decoded type.
     pub uninterp spec fn decode_limit<T>() -> nat;
@@ -40,6 +46,10 @@ pub mod verif_std {
     #[verifier::external_body]
     pub broadcast proof fn axiom_decode_limit_frame()
         ensures #[trigger] decode_unlimited::<WireMessage>(),
+    {}
+    #[verifier::external_body]
+    pub broadcast proof fn axiom_decode_limit_envelope()
+        ensures #[trigger] decode_unlimited::<RequestResponseEnvelope>(),
     {}
 
     pub mod postcard {
@@ -77,4 +87,4 @@ pub mod verif_std {
 pub use verif_std::*;
 pub type Result<T> = core::result::Result<T, VerifError>;
 pub type P2pResult<T> = core::result::Result<T, VerifError>;
-broadcast use {verif_std::axiom_decode_limit_record, verif_std::axiom_decode_limit_frame};
+broadcast use {verif_std::axiom_decode_limit_record, verif_std::axiom_decode_limit_frame, verif_std::axiom_decode_limit_envelope};
